@@ -32,13 +32,13 @@ PROPS = {
 }
 
 PROPS["C16"] = {
-    "level_text": "Theorems on statement-level models of the parsers (checked slices: a Go panic is a model panic): tree round-trip parse(ser es) = es for every storable entry list, totality (no panic) of tree/commit/tag/batch-header/reference parsers on ALL byte strings, termination by a consumed-bytes measure; correspondence on structured objects (gpgsig/mergetag blocks, messages imitating headers, odd modes, arbitrary name bytes) and a mutation stream (truncation at every byte, flips, splices).",
+    "level_text": "Theorems on statement-level models of the parsers (checked slices: a Go panic is a model panic): tree round-trip parse(ser es) = es for every storable entry list, commit and tag exactness (`commit_exact`, `tag_exact`: for EVERY well-formed object — any extra header lines incl. ones spelt parent/tree/object/type, continuation lines imitating headers, any message bytes — exactly the tree+parents / object+type are returned), totality (no panic) of tree/commit/tag/batch-header/reference parsers on ALL byte strings, termination by a consumed-bytes measure; correspondence on structured objects (gpgsig/mergetag blocks, messages imitating headers, odd modes, arbitrary name bytes) and a mutation stream (truncation at every byte, flips, splices).",
     "level_note": "Trusted: Lean kernel; the hand-written models are tied to git/*.go by differential testing only (bounded by the generators); Go's strconv.ParseUint / hex.DecodeString are modelled.",
     "technique": "Lean 4 proof on parser models + differential correspondence",
     "modules": ["GitSizer.Props.C16"],
     "engines": [{"name": "parsers", "quick": 40000, "thorough": 4000000, "per_shard": 20000}],
     "rule": "kinds tree/commit/tag/batch/ref/oid; half structured (well-formed objects judged against the grammar), half mutated (judged for totality and model agreement); distinct = distinct (kind, bytes); non-trivial = every case (each is a fresh object or mutation).",
-    "assumptions": ["commit/tag exactness on well-formed objects is judged by the engine (grammar serialiser) and not yet a theorem"],
+    "assumptions": ["well-formedness of commit/tag objects is `Spec.CommitObj.OK` / `Spec.TagObj.OK` (what git fsck enforces: tree line first, parents directly after it, object and type first in a tag, every header line contains a space, continuation lines start with one)"],
 }
 
 PROPS["C15"] = {
